@@ -487,6 +487,11 @@ static void add_line_numbers(Token *tok) {
 }
 
 Token *tokenize_string_literal(Token *tok, Type *basety) {
+  // The readers report errors with error_at, which is relative to
+  // current_file. This runs after preprocessing, when current_file
+  // is whatever file was tokenized last.
+  current_file = tok->file;
+
   Token *t;
   if (basety->size == 2)
     t = read_utf16_string_literal(tok->loc, tok->loc);
